@@ -186,7 +186,7 @@ func VerifC19Uint32() {
 	ruleOK, schemaOK := b.holds(v), c19IntegerOK(schema, v)
 	verif.Show("ruleOK", ruleOK)
 	verif.Show("schemaOK", schemaOK)
-	verif.Expect("KF-C19-rules-of-unsigned-and-sint-sfixed-kinds-dropped", ruleOK == schemaOK)
+	verif.Assert("C19/uint32/rules<=>schema", ruleOK == schemaOK) // the dispatch defect repaired in 838862c
 	verif.Reach("C19/uint32/decided")
 }
 
